@@ -190,8 +190,13 @@ def ann_tags(ann):
     if a.startswith('"@') or a.startswith("'@"):
         parts = [p.strip() for p in a.strip("\"'").split("&")]
         return tuple(sorted({p[1:] for p in parts if p.startswith("@")}))
-    if a.startswith("tag."):
-        return tuple(sorted({p.strip()[4:] for p in a.split("&")}))
+    if a.startswith("tag.") or a.startswith("TS_AB"):
+        # TS_AB is a named, shared tag set (tag.A & tag.B) provided by the check's globals
+        out = set()
+        for p in a.split("&"):
+            p = p.strip()
+            out |= {"A", "B"} if p == "TS_AB" else {p[4:]}
+        return tuple(sorted(out))
     return ()
 
 
@@ -838,6 +843,7 @@ def functions(flags=None, want_gen=None):
             return ("tuple", [int_expr(bound, 1) for _ in range(max(0, n + draw(st.sampled_from([-1, 1]))))])
 
         taken = []
+        t2_shape = [2, 1]
 
         def name_target():
             pool = [v for v in LOCALS if v not in excluded and v not in taken] or [v for v in LOCALS if v not in taken]
@@ -873,7 +879,13 @@ def functions(flags=None, want_gen=None):
                 n = draw(st.integers(1, 2))
                 return ("l", [name_target() for _ in range(n)]), n
             if k == "t2":
-                return ("t", [name_target(), ("t", [name_target(), name_target()])]), -2
+                # a nested target in last, first or middle position of its level
+                n_out = draw(st.integers(2, 3))
+                pos = draw(st.sampled_from([n_out - 1, n_out - 1, 0, 1]))
+                ts = [name_target() for _ in range(n_out)]
+                ts[pos] = ("t", [name_target(), name_target()])
+                t2_shape[:] = [n_out, pos]
+                return ("t", ts), -2
             if k == "star":
                 pos = draw(st.integers(0, 2))
                 ts = [name_target(), name_target()]
@@ -917,12 +929,17 @@ def functions(flags=None, want_gen=None):
                 mark(bound, t)
                 return pre + [("assign", [t], e)]
             if arity == -2:
-                e = ("tuple", [int_expr(bound, 1), ("tuple", [int_expr(bound, 1), int_expr(bound, 1)])])
+                n_out, pos = t2_shape
+                es = [int_expr(bound, 1) for _ in range(n_out)]
+                es[pos] = ("tuple", [int_expr(bound, 1), int_expr(bound, 1)])
+                e = ("tuple", es)
                 if draw(st.integers(0, 2)) == 0:
                     # the inner sequence has the wrong length: the outer entries that come first are
                     # bound all the same, and the statement fails with the inner unpacking
                     inner = [int_expr(bound, 1) for _ in range(draw(st.sampled_from([1, 3])))]
-                    e = ("tuple", [int_expr(bound, 1), ("tuple", inner)])
+                    es = list(es)
+                    es[pos] = ("tuple", inner)
+                    e = ("tuple", es)
                     mark(bound, t)
                     return pre + [("try", [("assign", [t], e)], [("(ValueError, TypeError)", None, [("pass",)])], [], [])]
             elif arity == -3:
